@@ -3,6 +3,7 @@ package main
 import (
 	"fmt"
 	"go/ast"
+	"go/types"
 )
 
 func (fx *FuncCtx) initHeap(st *State)                  {}
@@ -13,14 +14,82 @@ func (x *Exec) heapWrite(r VRef, field string, v Val, st *State, n ast.Node) {
 	unsupp(n.Pos(), x.fx.prog.fset, "heap write is outside the modelled subset")
 }
 func (x *Exec) indexAssign(l *ast.IndexExpr, v Val, st *State) {
-	unsupp(l.Pos(), x.fx.prog.fset, "indexed assignment is outside the modelled subset")
+	e := x.ev(st)
+	base := e.ev(l.X)
+	switch b := base.(type) {
+	case VStrs:
+		sv, ok := v.(VStr)
+		if !ok {
+			unsupp(l.Pos(), x.fx.prog.fset, "assignment of %T into a []string", v)
+		}
+		i := e.intOf(e.ev(l.Index), l.Index)
+		e.safety("index", "index", l.Pos(), sAnd(sLe("0", i), sLt(i, b.N)), "index in range of "+exprString(l.X))
+		nb := VStrs{
+			B: x.fx.name(sortArrArr, "sb", fmt.Sprintf("(store %s %s %s)", b.B, i, sv.B)),
+			O: x.fx.name(sortArr, "so", fmt.Sprintf("(store %s %s %s)", b.O, i, sv.O)),
+			L: x.fx.name(sortArr, "sl", fmt.Sprintf("(store %s %s %s)", b.L, i, sv.L)),
+			N: b.N,
+		}
+		x.assignTo(l.X, nb, st, false)
+		return
+	case VHeapMap:
+		x.heapMapStore(l, b, v, st)
+		return
+	}
+	unsupp(l.Pos(), x.fx.prog.fset, "indexed assignment into %T is outside the modelled subset", base)
+}
+
+func (x *Exec) heapMapStore(l *ast.IndexExpr, m VHeapMap, v Val, st *State) {
+	unsupp(l.Pos(), x.fx.prog.fset, "map store is outside the modelled subset")
 }
 func (x *Exec) starAssign(l *ast.StarExpr, v Val, st *State) {
 	unsupp(l.Pos(), x.fx.prog.fset, "assignment through a pointer is outside the modelled subset")
 }
+
+// rangeString models "for _, r := range s": iteration over the code points utf8dec(s) (invalid
+// bytes decode to U+FFFD); the byte index is not modelled.
 func (x *Exec) rangeString(s *ast.RangeStmt, st *State, c VStr, lc *LoopContract, ord int) *Flow {
-	unsupp(s.Pos(), x.fx.prog.fset, "range over string is not modelled yet")
-	return nil
+	fx := x.fx
+	if id, ok := s.Key.(*ast.Ident); ok && id.Name != "_" {
+		unsupp(s.Pos(), fx.prog.fset, "the byte index of a range over a string is not modelled")
+	}
+	fx.useSeq = true
+	fx.specUsed["utf8dec"] = true
+	fx.specUsed["bs_nth"] = true
+	fx.trusted["range over a string yields the code points utf8dec(s), each in [0,0x10FFFF] and not a surrogate (assumed UTF-8 facts U1-U3)"] = true
+	dec := fx.name(sortSeq, "dec", "(utf8dec "+fx.seqOf(c)+")")
+	n := fx.name(sortInt, "nr", "(bs_len "+dec+")")
+	idxObj := types.NewVar(s.Pos(), fx.pkg.Types, fmt.Sprintf("rangeidx%d", ord), types.Typ[types.Int])
+	st.env[idxObj] = VInt{"0"}
+	fx.ghostLocals[fmt.Sprintf("rangeidx%d", ord)] = idxObj
+	fx.ghostLocals["rangeidx"] = idxObj
+	ls := &loopSpec{node: s, ord: ord, lc: lc, bodyPos: s.Body.Lbrace + 1, body: s.Body.List, modNodes: []ast.Node{s.Body}, modExtra: []types.Object{idxObj}}
+	ls.autoInv = func(h *State) Term {
+		k := h.env[idxObj].(VInt).T
+		return sAnd(sLe("0", k), sLe(k, n))
+	}
+	ls.autoDec = func(h *State) Term { return sSub(n, h.env[idxObj].(VInt).T) }
+	ls.guard = func(h *State) Term { return sLt(h.env[idxObj].(VInt).T, n) }
+	ls.pre = func(b *State) {
+		if id, ok := s.Value.(*ast.Ident); ok && id.Name != "_" {
+			obj := x.info.Defs[id]
+			if obj == nil {
+				obj = x.info.Uses[id]
+			}
+			r := fx.name(sortInt, "rune", "(bs_nth "+dec+" "+b.env[idxObj].(VInt).T+")")
+			fx.emit(fmt.Sprintf("(assert (and (<= 0 %s) (<= %s 1114111) (not (and (<= 55296 %s) (<= %s 57343)))))", r, r, r, r))
+			b.env[obj] = VInt{r}
+		}
+	}
+	ls.post = func(b *State) *Flow {
+		b.env[idxObj] = VInt{fx.name(sortInt, "k", sAdd(b.env[idxObj].(VInt).T, "1"))}
+		return &Flow{fall: b}
+	}
+	f := x.loop(ls, st)
+	if f.fall != nil {
+		delete(f.fall.env, idxObj)
+	}
+	return f
 }
 func (x *Exec) rangeOther(s *ast.RangeStmt, st *State, coll Val, lc *LoopContract, ord int) *Flow {
 	unsupp(s.Pos(), x.fx.prog.fset, fmt.Sprintf("range over %T is not modelled", coll))
